@@ -6,6 +6,7 @@ import (
 	"golang.org/x/tools/go/ssa"
 
 	"verif/sa/internal/core"
+	"verif/sa/internal/tf"
 )
 
 // ssaOrigins traces a value backwards to the instructions that produce it: through phis, conversions, interface boxing,
@@ -82,6 +83,10 @@ func ssaOrigins(v ssa.Value, stop func(*ssa.Function) bool) []originLeaf {
 						if r.X == addr {
 							scan(r)
 						}
+					case *ssa.FieldAddr:
+						if r.X == addr {
+							scan(r)
+						}
 					case *ssa.Call:
 						// the address handed to a callee (json.Unmarshal(data, &v)): the callee fills it
 						for _, a := range r.Common().Args {
@@ -104,7 +109,11 @@ func ssaOrigins(v ssa.Value, stop func(*ssa.Function) bool) []originLeaf {
 			_ = n
 		case *ssa.Call:
 			callee := x.Common().StaticCallee()
-			if callee != nil && len(callee.Blocks) > 0 && core.InRepo(pkgPathOf(callee)) && !x.Common().IsInvoke() && (stop == nil || !stop(callee)) {
+			if callee == nil && x.Common().IsInvoke() {
+				// a single-assignment interface variable (dependency-injection seam)
+				callee = sharedEngine().Devirtualise(x.Common())
+			}
+			if callee != nil && len(callee.Blocks) > 0 && core.InRepo(pkgPathOf(callee)) && (stop == nil || !stop(callee)) {
 				for _, b := range callee.Blocks {
 					if ret, ok := b.Instrs[len(b.Instrs)-1].(*ssa.Return); ok {
 						k := idx
@@ -193,4 +202,13 @@ func repoFuncsAndInstances(p *core.Program) []*ssa.Function {
 		}
 	}
 	return out
+}
+
+var theEngine *tf.Engine
+
+func sharedEngine() *tf.Engine {
+	if theEngine == nil {
+		theEngine = tf.NewEngine(core.InRepo, 0)
+	}
+	return theEngine
 }
